@@ -13,7 +13,7 @@
 # limitations under the License.
 
 
-from math import factorial, prod
+from math import factorial, prod, sqrt
 
 import numpy as np
 from thewalrus import perm
@@ -38,7 +38,7 @@ class Permanent:
         factor_n = prod([factorial(i) for i in out_state])
         # Calculate permanent for given input/output
         return perm(partition(unitary, in_state, out_state)) / (
-            np.sqrt(factor_m * factor_n)
+            sqrt(factor_m * factor_n)
         )
 
 
